@@ -34,6 +34,19 @@
 // computes |a - b| on the integers and converts the result to f64 (exact); the expected answers are computed by the harness
 // in INTEGER arithmetic.
 //
+// How the symbolic query reaches the code: by a CASE SPLIT in the harness (`if q == c { check(&tree, c) }` for c = 0..=16), so
+// that each case calls the real function with a constant query and CBMC decides it by constant propagation; together the 17
+// cases are every query in the range.  Measured alternatives (tree a, find_radius), none admitted:
+//   * query passed on symbolically, unwind 6:  1.7 M steps, out of memory (20 GB) in propositional reduction;
+//   * the same with `Vec::new` preallocated / `realloc_nonnull` asserted unreachable (the stubs of c13_dbscan_predict.rs), the tree
+//     never dropped and every harness loop unrolled (unwind 4): 0.49 M steps, 21.9 M variables / 77.6 M clauses, out of memory:
+//     the three nested loops of the descent have trip counts that depend on the query, each body pushes (f64, &Node) pairs at a
+//     symbolic position and dereferences a &Node read back from such a buffer;
+//   * case split WITHOUT `break` (cases merged into each other's path condition), 51 cases: passes, 908 s symex;
+//   * case split with `break` (this file): 17 cases, 60 - 160 s symex, solver < 30 s.
+// The stubs make no difference once the query is constant (2.3 s vs 3.7 s symex per call), so none are used: the real Vec
+// growth path runs.  The radius is fixed per harness (1.0, 2.0, 5.0) to keep one harness at 17 cases.
+//
 // Obligations (property C04): "a k-nearest query returns exactly k entries whose distances are the k smallest distances
 // from the query to the data (every returned distance <= every non-returned one), each entry carrying the true index,
 // distance and point; a radius query returns exactly the points within the radius".
@@ -88,9 +101,9 @@ fn verif_tree(root: Node<f64>, data: Vec<u8>) -> CoverTree<u8, f64, VerifAbsDiff
 const DATA_A: [u8; 4] = [13, 5, 3, 8];
 const DATA_B: [u8; 6] = [1, 9, 4, 4, 7, 2];
 
-// Straight-line repetition over the positions of the data vector: the unwinding bound of a harness is then the one the
-// QUERY needs (depth of the tree + 1), not the number of data points (every loop of the query whose trip count depends on
-// the symbolic query is unrolled up to the bound, nested three deep).
+// Straight-line repetition (over the positions of the data vector, over the 17 queries): no harness loop contributes to the
+// unwinding bound, which is n + 1 (no loop of a query over n points runs more than n times: tree depth, children per node,
+// work-list lengths, the final sort_by of at most n candidates).
 macro_rules! verif_each {
     ([$($i:expr),*], $v:ident, $body:block) => {
         $( { let $v: usize = $i; $body } )*
@@ -113,23 +126,6 @@ fn verif_tree_b() -> CoverTree<u8, f64, VerifAbsDiff> {
     let n4 = verif_pair(4, 2.0, 6.0, 5, verif_leaf(4, 0.0), verif_leaf(1, 2.0));
     let root = verif_pair(0, 8.0, 0.0, 1, n0a, n4);
     verif_tree(root, vec![1, 9, 4, 4, 7, 2])
-}
-
-// The queries start every work list from `Vec::new()` and push under symbolic conditions, so the lengths are symbolic and
-// CBMC follows the grow path, which reallocates with a SYMBOLIC size (see kani/c13_dbscan_predict.rs, where the same two
-// stubs are measured).  Vec::new is replaced by a preallocation (capacity is not observable by safe code) and the
-// reallocation entry point by a function that ASSERTS it is never reached: "no heap buffer is reallocated" is a checked
-// obligation of every harness, not an assumption.
-const VERIF_CAP: usize = 8;
-
-fn verif_vec_new_prealloc<T>() -> Vec<T> {
-    Vec::with_capacity(VERIF_CAP)
-}
-
-unsafe fn verif_no_realloc(ptr: std::ptr::NonNull<u8>, _layout: std::alloc::Layout, _new_size: usize) -> *mut u8 {
-    assert!(false, "harness bound: no heap buffer is reallocated (a Vec outgrew its preallocated capacity)");
-    kani::assume(false);
-    ptr.as_ptr()
 }
 
 fn verif_absdiff(a: u8, b: u8) -> u8 {
@@ -288,16 +284,16 @@ macro_rules! ct_radius_harness {
 }
 
 //                name             tree          data    n  positions           k  unwind
-ct_find_harness!(c04_ct_find_a_k1, verif_tree_a, DATA_A, 4, [0, 1, 2, 3], 1, 6);
-ct_find_harness!(c04_ct_find_a_k2, verif_tree_a, DATA_A, 4, [0, 1, 2, 3], 2, 6);
-ct_find_harness!(c04_ct_find_a_k3, verif_tree_a, DATA_A, 4, [0, 1, 2, 3], 3, 6);
-ct_find_harness!(c04_ct_find_b_k1, verif_tree_b, DATA_B, 6, [0, 1, 2, 3, 4, 5], 1, 8);
-ct_find_harness!(c04_ct_find_b_k2, verif_tree_b, DATA_B, 6, [0, 1, 2, 3, 4, 5], 2, 8);
-ct_find_harness!(c04_ct_find_b_k3, verif_tree_b, DATA_B, 6, [0, 1, 2, 3, 4, 5], 3, 8);
+ct_find_harness!(c04_ct_find_a_k1, verif_tree_a, DATA_A, 4, [0, 1, 2, 3], 1, 5);
+ct_find_harness!(c04_ct_find_a_k2, verif_tree_a, DATA_A, 4, [0, 1, 2, 3], 2, 5);
+ct_find_harness!(c04_ct_find_a_k3, verif_tree_a, DATA_A, 4, [0, 1, 2, 3], 3, 5);
+ct_find_harness!(c04_ct_find_b_k1, verif_tree_b, DATA_B, 6, [0, 1, 2, 3, 4, 5], 1, 7);
+ct_find_harness!(c04_ct_find_b_k2, verif_tree_b, DATA_B, 6, [0, 1, 2, 3, 4, 5], 2, 7);
+ct_find_harness!(c04_ct_find_b_k3, verif_tree_b, DATA_B, 6, [0, 1, 2, 3, 4, 5], 3, 7);
 //                  name                tree          data    n  positions           radius   unwind
-ct_radius_harness!(c04_ct_radius_a_r1, verif_tree_a, DATA_A, 4, [0, 1, 2, 3], 1.0, 1, 6);
-ct_radius_harness!(c04_ct_radius_a_r2, verif_tree_a, DATA_A, 4, [0, 1, 2, 3], 2.0, 2, 6);
-ct_radius_harness!(c04_ct_radius_a_r5, verif_tree_a, DATA_A, 4, [0, 1, 2, 3], 5.0, 5, 6);
-ct_radius_harness!(c04_ct_radius_b_r1, verif_tree_b, DATA_B, 6, [0, 1, 2, 3, 4, 5], 1.0, 1, 8);
-ct_radius_harness!(c04_ct_radius_b_r2, verif_tree_b, DATA_B, 6, [0, 1, 2, 3, 4, 5], 2.0, 2, 8);
-ct_radius_harness!(c04_ct_radius_b_r5, verif_tree_b, DATA_B, 6, [0, 1, 2, 3, 4, 5], 5.0, 5, 8);
+ct_radius_harness!(c04_ct_radius_a_r1, verif_tree_a, DATA_A, 4, [0, 1, 2, 3], 1.0, 1, 5);
+ct_radius_harness!(c04_ct_radius_a_r2, verif_tree_a, DATA_A, 4, [0, 1, 2, 3], 2.0, 2, 5);
+ct_radius_harness!(c04_ct_radius_a_r5, verif_tree_a, DATA_A, 4, [0, 1, 2, 3], 5.0, 5, 5);
+ct_radius_harness!(c04_ct_radius_b_r1, verif_tree_b, DATA_B, 6, [0, 1, 2, 3, 4, 5], 1.0, 1, 7);
+ct_radius_harness!(c04_ct_radius_b_r2, verif_tree_b, DATA_B, 6, [0, 1, 2, 3, 4, 5], 2.0, 2, 7);
+ct_radius_harness!(c04_ct_radius_b_r5, verif_tree_b, DATA_B, 6, [0, 1, 2, 3, 4, 5], 5.0, 5, 7);
